@@ -18,6 +18,7 @@ attribute or argument.
 from __future__ import annotations
 
 import ast
+import re
 
 from .common import *  # noqa: F401,F403
 from .trace import CANON, MF, MG, PL, PR
@@ -148,7 +149,7 @@ def mk_cfg(u):
 
 
 # ---- the scenario processor ------------------------------------------------------------------------------------
-def mk_processor(ex, u, enabled=None):
+def mk_processor(ex, u, enabled=None, decoy=True):
     w, st = u.world, ex.st
     fr = Frame(None, None)
 
@@ -176,13 +177,22 @@ def mk_processor(ex, u, enabled=None):
         en = VBool(z3.Bool(f"enabled_{i}")) if enabled is None else VBool(enabled)
         models.append(ex.instantiate(mci, [], {"func": VStr(f"pkg.mod.f{i}"), "name": names[i], "arguments": d, "enabled": en}, Frame(None, mci.module)))
     pci = w.cls(f"{PL}::DetectionPipeline")
-    pipe = ex.instantiate(pci, [], {GROUP: st.alloc(HList(models))}, Frame(None, pci.module))
+    groups = {GROUP: st.alloc(HList(models))}
+    if decoy:
+        # a model in an EARLIER group whose name may coincide with an addressed model's name and whose enabled flag
+        # is independent: a key must be decided by the model it addresses, not by a namesake elsewhere
+        dn = VStr(z3.String("decoy_model_name"))
+        st.assume(z3.And(z3.Not(z3.Contains(dn.v, z3.StringVal("."))), z3.Length(dn.v) > 0, dn.v != "arguments", dn.v != "enabled"))
+        dd = st.alloc(HDict([(argn[0], VInt(z3.Int("decoy_a0"))), (argn[1], VInt(z3.Int("decoy_a1")))]))
+        groups["scene_generation"] = st.alloc(HList([ex.instantiate(mci, [], {"func": VStr("pkg.mod.decoy"), "name": dn, "arguments": dd,
+                                                                              "enabled": VBool(z3.Bool("decoy_enabled"))}, Frame(None, mci.module))]))
+    pipe = ex.instantiate(pci, [], groups, Frame(None, pci.module))
     prc = w.cls(f"{PR}::Processor")
     proc = st.alloc(HObj(prc, {"detector": det, "pipeline": pipe, "observation": NONE, "_result": NONE, "_numbytes": VInt(0), "_log": VOpaque("logger")}))
     ex.scn = {"proc": proc, "det": det, "geo": geo, "env": env, "cht": cht, "pipe": pipe, "models": models, "names": names, "argn": argn}
     # the group's model names must not collide with real attributes of ModelGroup (else normal lookup wins)
     grp = ex.getattr(pipe, GROUP, fr)
-    for nme in names:
+    for nme in names + ([dn] if decoy else []):
         for a in attr_names(ex, grp):
             st.assume(nme.v != a)
     for an in argn:
@@ -415,14 +425,36 @@ for key in ('pipeline.photon_collection.on.arguments.levle', 'pipeline.photon_co
     except (KeyError, ValueError, AttributeError) as e:
         if VP.LOG: VIOLATED, DETAIL = True, f'{key!r} rejected only after {len(VP.LOG)} model calls'; break
 """, "expect": "undeclared arguments and arguments of disabled models are rejected before any pipeline runs"}
+    rp2 = lambda w: {"code": """
+import verif_probes as VP
+from pyxel.pipelines import DetectionPipeline, ModelFunction, Processor
+from pyxel.observation import Observation, ParameterValues
+from pyxel.exposure import Readout
+VIOLATED, DETAIL = False, 'no combination of namesake / flags misjudged'
+for decoy_group in ('scene_generation', 'charge_generation'):
+  for decoy_name in ('bg', 'other'):
+    for en_addr in (True, False):
+      for en_decoy in (True, False):
+        VP.LOG.clear()
+        groups = {'photon_collection': [ModelFunction(func='verif_probes.probe', name='bg', arguments={'level': 1}, enabled=en_addr)],
+                  decoy_group: [ModelFunction(func='verif_probes.probe', name=decoy_name, arguments={'level': 1}, enabled=en_decoy)]}
+        proc = Processor(detector=VP.detector(), pipeline=DetectionPipeline(**groups))
+        obs = Observation(parameters=[ParameterValues(key='pipeline.photon_collection.bg.arguments.level', values=[1, 2])], readout=Readout(times=[1.0]))
+        try:
+            obs.validate_steps(proc); accepted = True
+        except (KeyError, ValueError, AttributeError):
+            accepted = False
+        if accepted != en_addr and not VIOLATED:
+            VIOLATED, DETAIL = True, f'addressed model photon_collection.bg enabled={en_addr}; namesake {decoy_group}.{decoy_name} enabled={en_decoy}: validate_steps ' + ('accepted' if accepted else 'rejected') + ' the sweep'
+""", "expect": "a sweep of a model argument is accepted iff the ADDRESSED model is enabled"}
     for label, build in key_scenarios():
         if ".enabled" in label:
             continue
-        for en in (True, False):
+        for en in (True, False, None):
             holder = {}
 
             def setup(ex, build=build, en=en):
-                proc = mk_processor(ex, u, enabled=en)
+                proc = mk_processor(ex, u, enabled=en, decoy=en is None)
                 key, res = build(ex)
                 holder["res"] = res
                 step = ex.st.alloc(HObj(pvc, {"_key": key, "_values": ex.st.alloc(HList([VInt(1), VInt(2)])), "_enabled": VBool(True), "_type": VStr("int")}))
@@ -433,8 +465,20 @@ for key in ('pipeline.photon_collection.on.arguments.levle', 'pipeline.photon_co
             cfg.lib_overrides["builtins.isinstance"] = lambda ex, f, args, kwargs, fr: VBool(False) if isinstance(args[0], VOpaque) and args[0].kind == "mode" else L.isinstance_(ex, args[0], args[1])
             ps = u.paths(fi, setup, cfg, label=f"validate_steps[{label},enabled={en}]")
             is_model_arg = label.startswith("pipeline.") and ".arguments." in label
+            mm = re.search(r"<model(\d)>", label)
             for p in ps:
-                if holder["res"] and (en or not is_model_arg):
+                if en is None and holder["res"] and is_model_arg:
+                    # independent flags + a namesake in another group: decided by the ADDRESSED model's flag only
+                    flag = z3.Bool(f"enabled_{mm.group(1)}")
+                    w = {"addressed_enabled": flag, "decoy_enabled": z3.Bool("decoy_enabled"), "decoy_name": z3.String("decoy_model_name"),
+                         "model_name": z3.String(f"model_name_{mm.group(1)}")}
+                    if p.kind == "return":
+                        u.oblige(p, f"validate.accepts_only_enabled[{label}]", flag, w, rp2)
+                    else:
+                        u.oblige(p, f"validate.rejects_only_disabled[{label}]", z3.And(z3.Not(flag), zb(p.exc_name() == "ValueError")), w, rp2)
+                elif en is None and holder["res"]:
+                    u.oblige(p, f"validate.accepts[{label},enabled=sym]", p.kind == "return", {"exc": p.exc_name()}, rp)
+                elif holder["res"] and (en or not is_model_arg):
                     u.oblige(p, f"validate.accepts[{label},enabled={en}]", p.kind == "return", {"exc": p.exc_name()}, rp)
                 else:
                     u.oblige(p, f"validate.before_runs[{label},enabled={en}]", p.kind == "raise" and p.exc_name() in ("KeyError", "ValueError", "AttributeError"), {"outcome": p.kind}, rp)
